@@ -17,6 +17,10 @@ const (
 	BindingPathParam
 	// BindingQueryParam indicates a variable bound from a route query parameter.
 	BindingQueryParam
+	// BindingRequestBuiltin indicates one of the request variables every route
+	// gets (query, headers, input, auth). As in the compiler (DefineBuiltin),
+	// user code may shadow them with a declaration of its own.
+	BindingRequestBuiltin
 )
 
 // binding stores a variable's value alongside the source of its binding.
